@@ -55,6 +55,12 @@ T = [
  ("C14-B", "C14", "C14.R5", "dns deny decision flattened: denied & not allowed accepted under prefer_allow"),
  ("C15-A", "C15", "C15.R6", "unhealthy_connection_count replaces HealthChecks and drops active options"),
  ("C15-B", "C15", "C15.R7", "server counter restarts at 0 for a second global block"),
+ ("C04-A", "C04", "C04.R1", "http isHttp guard lowered from 10 to 9"),
+ ("C04-B", "C04", "C04.R7", "postgres ReadString guard weakened"),
+ ("fixrev-133cdeb", "C04", "C04.R2", "postgres length no longer validated (unbounded allocation, short messages)"),
+ ("fixrev-4e898d7", "C04", "C04.R1", "rdp looks past the payload for LF"),
+ ("fixrev-d57319b", "C04", "C04.R1", "winbox chunk/delimiter boundary checks removed"),
+ ("fixrev-9c0f4f8", "C04", "C04.R6", "leastConns dereferences nil slots"),
  ("C05-A", "C05", "C05.R2", "deadline armed once only; not re-armed after a matched non-terminal route"),
  ("C05-B", "C05", "C05.R5", "buffer limit measured from the cursor"),
  ("fixrev-396f23a", "C05", "C05.R2", "fallback of an empty route list runs with the deadline armed"),
